@@ -2,7 +2,7 @@
 # Stage 4: the survivors of stage 1 in the two biggest files (types/node/bytecoder.go, vm/vm.go) against the full list of
 # related checks, 6 workers so that it can run in the background. Output: mutation/RESULTS-heavy2.tsv
 export GOFLAGS=-mod=mod GOPROXY=off GOSUMDB=off GOTOOLCHAIN=local
-export VERIF_WORKERS=${VERIF_WORKERS:-6} VERIF_BUDGET_S=${VERIF_BUDGET_S:-400}
+export VERIF_WORKERS=${VERIF_WORKERS:-8} VERIF_BUDGET_S=${VERIF_BUDGET_S:-400}
 (cd /verif/tools/mutate && go build -o /tmp/mutate4 .) || exit 2
 out=${OUT:-/verif/mutation/RESULTS-heavy2.tsv}
 touch $out
@@ -11,7 +11,7 @@ grep -E "bytecoder.go|vm/vm.go" /verif/mutation/survivors.tsv | while IFS="$(pri
   grep -q "^$f	$k	" $out && continue
   case $f in
     vm/*) checks="C01 C02 C09 C08 C19 C17 C03 C05";;
-    *) checks="C01 C12 C09 C05 C19 C02 C15";;
+    *) checks="C01 C12 C09 C05 C19";;
   esac
   id="m4-$(echo $f | tr '/.' '__')-$k"
   /tmp/mutate4 -k $k -o /tmp/mutseeds4/m.go /repo/$f
